@@ -438,6 +438,12 @@ func (s *Server) RunHookProg(prog Obj, req Obj) HookReply {
 	if r, ok := prog["resync"]; ok {
 		resp["resyncAfterSeconds"] = r
 	}
+	if rb, ok := prog["resyncByRev"]; ok { // resyncAfterSeconds answered per parent revision
+		rev := AsStr(AsMap(parent["spec"])["rev"])
+		if v, has := AsMap(rb)[rev]; has {
+			resp["resyncAfterSeconds"] = v
+		}
+	}
 	if l, ok := prog["setLabels"]; ok {
 		lm := Obj{}
 		for k, v := range AsMap(l) {
